@@ -13,7 +13,7 @@ ENV = dict(os.environ)
 
 
 def sh(cmd, cwd=None, timeout=3000):
-    r = subprocess.run(cmd, shell=True, cwd=cwd, capture_output=True, text=True, timeout=timeout, env=ENV)
+    r = subprocess.run(cmd, shell=True, cwd=cwd, capture_output=True, text=True, errors="replace", timeout=timeout, env=ENV)
     return r.returncode, (r.stdout + r.stderr)
 
 
